@@ -354,8 +354,15 @@ func (h *hist) apply(opIdx int, base *live, seed int64, protect map[int]bool) (m
 		return l.m
 	}}
 	call := op.Make(rand.New(rand.NewSource(seed)), &base.m, env)
-	if !call.Pre {
+	// Pre is the shared table's statement for C02 (a well-formed result is owed). C01 skips derivations whose
+	// precondition fails, but writers marked ObserveAnyway run on whatever live mesh there is: an export that the writer
+	// handles only partially (material runs that do not cover every face, round 9 C01-N) must still leave every
+	// live mesh alone; its error or panic is, as always, not a C01 verdict.
+	if !call.Pre && !call.ObserveAnyway {
 		return false, nil
+	}
+	if !call.Pre {
+		h.res.Count("exports_of_meshes_outside_the_writers_precondition", 1)
 	}
 	sp, _ := spare(base.m)
 	if op.Kind == ops.Source && call.BaseKey != "" {
